@@ -243,6 +243,10 @@ def run(case):
             continue
         if len(toks) == 1:
             corruptions.append((f"line {i}: non-numeric vertex count", lines[:i] + ["three"] + lines[i + 1:]))
+            # a count line with a second token is neither a count nor an edge line
+            corruptions.append((f"line {i}: vertex count followed by a word", lines[:i] + [s + " x"] + lines[i + 1:]))
+            corruptions.append((f"line {i}: vertex count followed by a number", lines[:i] + [s + " 5"] + lines[i + 1:]))
+            corruptions.append((f"line {i}: fractional vertex count", lines[:i] + [s + ".5"] + lines[i + 1:]))
             if s != "0" and any(x.strip().startswith("#S") and len(x.split()) >= 3 for x in lines[max(0, i - 4):i]):
                 # count corrupted to 0 and the edge lines lost: the '#S' lines of the block now name absent arcs
                 nxt = [j for j in range(i + 1, len(lines)) if lines[j].strip().startswith("#")]
